@@ -94,7 +94,7 @@ func (p *Packet) Length() int {
 
 // Frames returns the number of data frames in the packet
 func (p *Packet) Frames() int {
-	if p.shape == nil {
+	if p.shape == nil || p.format == nil || p.format.wordlen <= 0 {
 		return 0
 	}
 	nchan := 1
@@ -324,6 +324,9 @@ func (p *Packet) Bytes() []byte {
 
 // ChannelInfo returns the number of channels in this packet, and the first one
 func (p *Packet) ChannelInfo() (nchan, offset int) {
+	if p.shape == nil {
+		return 0, int(p.offset)
+	}
 	nchan = 1
 	for _, s := range p.shape.Sizes {
 		if s > 0 {
